@@ -429,6 +429,42 @@ def calls_in(func, name_pred):
     return res
 
 
+def deref_local(fn, expr, depth=3):
+    """`expr` with a local that is bound exactly once in ``fn`` (a sub-expression given a name first) replaced by what it was bound to."""
+    while depth > 0 and isinstance(expr, ast.Name):
+        binds = [n for n in ast.walk(fn) if isinstance(n, ast.Assign) and len(n.targets) == 1 and isinstance(n.targets[0], ast.Name) and n.targets[0].id == expr.id]
+        others = [n for n in ast.walk(fn) if isinstance(n, (ast.AugAssign, ast.AnnAssign, ast.NamedExpr, ast.For, ast.AsyncFor)) and isinstance(getattr(n, "target", None), ast.Name)
+                  and n.target.id == expr.id]
+        params = {a.arg for a in fn.args.posonlyargs + fn.args.args + fn.args.kwonlyargs} if hasattr(fn, "args") else set()
+        if len(binds) != 1 or others or expr.id in params:
+            break
+        expr = binds[0].value
+        depth -= 1
+    return expr
+
+
+def expand_locals(fn, expr, depth=3):
+    """A copy of ``expr`` in which every local of ``fn`` that is bound exactly once (a sub-expression that was given a name) is replaced by
+    what it was bound to: `eval_func.global_ctx` after `eval_func = self.eval_func` reads `self.eval_func.global_ctx`."""
+    import copy
+
+    class T(ast.NodeTransformer):
+        def visit_Name(self, node):
+            if isinstance(node.ctx, ast.Load):
+                v = deref_local(fn, node, depth=1)
+                if v is not node:
+                    return copy.deepcopy(v)
+            return node
+
+    out = copy.deepcopy(expr)
+    for _ in range(depth):
+        before = ast.dump(out)
+        out = T().visit(ast.Expression(body=out)).body
+        if ast.dump(out) == before:
+            break
+    return out
+
+
 def const_set(node) -> set | None:
     """Evaluate a literal set/list/tuple/frozenset(...) of constants, else None."""
     if isinstance(node, (ast.Set, ast.List, ast.Tuple)):
